@@ -376,8 +376,9 @@ fn infer_source_field(
     fields: &[&syn::Field],
     parsed_fields: &ParsedFields,
 ) -> Option<usize> {
-    // if we have exactly two fields
-    if fields.len() != 2 {
+    // if we have exactly two fields, none of which is ignored (indices into
+    // `parsed_fields` are positions among the enabled fields only)
+    if fields.len() != 2 || parsed_fields.data.fields.len() != 2 {
         return None;
     }
 
